@@ -248,6 +248,18 @@ def check_case(case):
         res.stats["traces"] += 1
         res.stats["orders"] += 1
         check_table(res, spec, obs)
+        if spec.get("phases") and case["energy"] and o is orders[0]:
+            # a single-phase call reports the same energies as the rows of that phase in the all-phase table
+            for ph in spec["phases"]:
+                d1, _ = quiet_call(s.solve, phase=ph, energy=True)
+                o1 = observe(d1)
+                for key, r in o1.items():
+                    if key in ("__cols__", "__dups__"):
+                        continue
+                    r0 = obs.get(key)
+                    if r0 is not None and "24h energy (Wh)" in r and not close(g(r, "24h energy (Wh)"), g(r0, "24h energy (Wh)"), 1e-9, 1e-15):
+                        res.v(("C07.single-phase-energy",), "%s: solve(phase=%r, energy=True) gives %r, all-phase table %r" % (key, ph, g(r, "24h energy (Wh)"), g(r0, "24h energy (Wh)")))
+                        break
         if ref is None:
             ref = obs
         else:
